@@ -56,7 +56,15 @@ def make_frame(r, g):
   D = n_pre + n_test + n_cool
   periods = [labels['pre']] * n_pre + [labels['test']] * n_test + [labels['cooldown']] * n_cool
   origin = datetime.date(2021, 1, 1) + datetime.timedelta(days=r.randrange(0, 400))
-  dates = [pd.Timestamp(origin + datetime.timedelta(days=i)) for i in range(D)]
+  date_style = r.choice(['ts', 'ts', 'ts', 'tz', 'ns', 'tz_local'])
+  if date_style == 'tz':
+    dates = [pd.Timestamp(origin + datetime.timedelta(days=i), tz='UTC') for i in range(D)]
+  elif date_style == 'tz_local':
+    dates = [pd.Timestamp(origin + datetime.timedelta(days=i), tz='Europe/Berlin') for i in range(D)]
+  elif date_style == 'ns':
+    dates = [pd.Timestamp(origin + datetime.timedelta(days=i)).as_unit('ns') for i in range(D)]
+  else:
+    dates = [pd.Timestamp(origin + datetime.timedelta(days=i)) for i in range(D)]
   t = np.arange(D)
   common = np.cumsum(g.normal(0, 0.7, D)) + 3 * np.sin(2 * np.pi * t / 7.0)
   plant_noisy = r.random() < 0.5
@@ -69,8 +77,12 @@ def make_frame(r, g):
     for _ in range(r.randrange(1, 3)):
       spike_dates.append(r.randrange(0, D))
   groups = [(labels['control'], n_ctl), (labels['treatment'], n_trt)]
-  if r.random() < 0.2:
+  u_extra = r.random()
+  if u_extra < 0.2:
     groups.append((-1, r.randrange(1, 3)))
+  elif u_extra < 0.35:
+    # geos of a third arm / outside the experiment, labelled with some other id
+    groups.append((r.choice([0, 3, 99]) if not custom else r.choice([1, 2, 99]), r.randrange(1, 3)))
   for grp, cnt in groups:
     for j in range(cnt):
       size = float(np.exp(g.normal(0, 0.4)))
@@ -117,7 +129,7 @@ def make_frame(r, g):
               'key_response': names['response'], 'group_control': labels['control'], 'group_treatment': labels['treatment'],
               'period_pre': labels['pre'], 'period_test': labels['test'], 'period_cooldown': labels['cooldown']}
   desc = {'n_ctl': n_ctl, 'n_trt': n_trt, 'n_pre': n_pre, 'n_test': n_test, 'n_cool': n_cool, 'custom_names': custom,
-          'planted': planted, 'index_kind': index_kind, 'unassigned_geos': len(groups) == 3, 'seed_tag': r.randrange(1 << 30)}
+          'planted': planted, 'index_kind': index_kind, 'date_style': date_style, 'group_labels': [g_[0] for g_ in groups], 'unassigned_geos': len(groups) == 3, 'seed_tag': r.randrange(1 << 30)}
   return frame, kwargs, names, labels, desc
 
 
